@@ -6,7 +6,7 @@ LEVEL = "model_checking"
 
 def run(tier, seed, limit=0):
     chk = engine.Check("C06", tier, seed)
-    scs = fam_inst.family_dyn(tier, seed)
+    scs = fam_inst.family_dyn(tier, seed) + fam_inst.family_dyn_member_foreach(tier, seed)
     # a dynamic block with a soft constraint referenced before a conflicting inline soft, repeated: nothing of a call may
     # survive into the next one (soft priorities included)
     scs += [x for x in fam_soft.family_soft_struct(tier, seed) if "/dyn_soft/" in x["id"]]
